@@ -10,12 +10,14 @@ import (
 	"io"
 	mrand "math/rand/v2"
 	"sort"
+	"sync"
 	"testing"
 	"time"
 
 	"github.com/cbeuw/Cloak/internal/client"
 	mux "github.com/cbeuw/Cloak/internal/multiplex"
 	"github.com/cbeuw/Cloak/internal/server/usermanager"
+	"github.com/cbeuw/Cloak/internal/verifhook"
 	vk "github.com/cbeuw/Cloak/internal/verifkit"
 )
 
@@ -41,6 +43,10 @@ type c16User struct {
 	// deregistered); bytes metered around that moment may legitimately stay uncharged, so only the
 	// "never more than once" inequality is demanded until the next write
 	wasInactive bool
+	// exact: set when credit was written while the user was active and its traffic quiescent: the next
+	// upload must leave exactly these values, even if that upload cuts the user off
+	exact            bool
+	exactUp, exactDn int64
 }
 
 type c16Run struct {
@@ -198,6 +204,17 @@ func (c *c16Run) settleAndCheck(when string) {
 			return
 		}
 		vu, vd := u.volume()
+		if u.exact {
+			u.exact = false
+			// everything carried before the upload must be charged; frames the server itself sends while
+			// it cuts the user off (closing notices) may or may not be charged, nothing else
+			loUp, loDn := u.upBase-(vu-u.upMark), u.downBase-(vd-u.downMark)
+			if up > u.exactUp || down > u.exactDn || up < loUp || down < loDn {
+				c.fail("cutoff-charge-incomplete", fmt.Sprintf("%s: uid%d had carried a known volume with traffic stopped before the upload; that upload must leave up/down credit of at most %d/%d (and at least %d/%d) but the database holds %d/%d: the round that exhausts one credit must still charge both directions exactly once", when, u.idx, u.exactUp, u.exactDn, loUp, loDn, up, down))
+				return
+			}
+			c.r.Count("exact_cutoff_checks", 1)
+		}
 		wantUp, wantDown := u.upBase-(vu-u.upMark), u.downBase-(vd-u.downMark)
 		active := len(u.sessions) > 0 && !u.terminatedExpected && !u.wasInactive
 		c.r.Count("credit_comparisons", 1)
@@ -332,14 +349,49 @@ func TestVerif_C16(t *testing.T) {
 					if rng.IntN(2) == 0 {
 						run.write(u, usermanager.JustInt64(pu), usermanager.JustInt64(1<<30), nil)
 						u.upMark = u0
+						u.exact, u.exactUp, u.exactDn = true, 0, (1<<30)-pd
 					} else {
 						run.write(u, usermanager.JustInt64(1<<30), usermanager.JustInt64(pd), nil)
 						u.downMark = d0
+						u.exact, u.exactUp, u.exactDn = true, (1<<30)-pu, 0
 					}
 					u.upMark, u.downMark = u0, d0
 					run.note("uid%d credit set to exactly the %d/%d bytes pending upload", u.idx, pu, pd)
 					r.Count("exact_zero_cases", 1)
 					run.settleAndCheck("after exact-zero")
+				case op == 3 && len(live) > 0 && rng.IntN(2) == 0:
+					// two upload rounds overlap: round 1 is held right after it collected the queue, round 2
+					// runs to completion, then round 1 uploads what it had collected
+					run.traffic(u, u.sessions[live[0]], 1+rng.IntN(60000), rng)
+					parked, release := make(chan struct{}), make(chan struct{})
+					var once sync.Once
+					verifhook.Set("panel.commitUpdate.collected", func() {
+						first := false
+						once.Do(func() { first = true })
+						if first {
+							close(parked)
+							<-release
+						}
+					})
+					rdone := make(chan struct{})
+					go func() {
+						defer close(rdone)
+						g.sta.Panel.updateUsageQueue()
+						g.sta.Panel.commitUpdate()
+					}()
+					vk.Wait()
+					select {
+					case <-parked:
+						g.sta.Panel.updateUsageQueue()
+						g.sta.Panel.commitUpdate()
+						r.Count("forced_overlapping_uploads", 1)
+					default:
+					}
+					verifhook.Set("panel.commitUpdate.collected", nil)
+					close(release)
+					<-rdone
+					run.note("two upload rounds overlapped (forced)")
+					run.settleAndCheck("after overlapping upload rounds")
 				case op < 5 && len(live) > 0: // traffic, possibly on several sessions before the next upload
 					for k := 0; k < 1+rng.IntN(3); k++ {
 						run.traffic(u, u.sessions[live[rng.IntN(len(live))]], 1+rng.IntN(150000), rng)
